@@ -327,6 +327,10 @@ func getSchemaForABIInput(ctx context.Context, typeComponent abi.TypeComponent) 
 func convertFFIParamsToABIParameters(ctx context.Context, params fftypes.FFIParams) (abi.ParameterArray, error) {
 	abiParamList := make(abi.ParameterArray, len(params))
 	for i, param := range params {
+		if param == nil {
+			// A null entry in the parameter list of an interface definition ("params": [null])
+			return nil, i18n.NewError(ctx, signermsgs.MsgInvalidFFIDetailsSchema, "")
+		}
 
 		// We need to validate the schema against the Ethereum FFI metaschema here
 		// For example, if someone is creating an event listener, we need to make
